@@ -135,7 +135,7 @@ Definition lldp_tlv_type (l : bytes) (off : nat) : N := bits l (8 * off) 7.
 Definition lldp_value (l : bytes) (off : nat) : value :=
   if Nat.ltb (blen l) (off + 2) then VNil
   else if (lldp_tlv_type l off =? 0) && Nat.eqb (lldp_tlv_len l off) 0 then VNil
-  else if Nat.leb (off + 2 + lldp_tlv_len l off) (blen l) then VR (off + 2) (lldp_tlv_len l off) else VNil.
+  else if Nat.leb (off + 2 + lldp_tlv_len l off) (blen l) then vr (off + 2) (lldp_tlv_len l off) else VNil.
 Definition lldp_next (l : bytes) (off : nat) : nat :=
   match lldp_value l off with VR _ n => (off + 2 + n)%nat | _ => (off + 2)%nat end.
 Definition LLDP_specs : stable :=
